@@ -23,25 +23,28 @@ from bounded._c02_types import build_specs, discover_modules
 
 BOUNDS = (
     "Types: every implementation module found by walking dns/rdtypes/{ANY,IN,CH} (69 on the pinned tree; a module "
-    "without a model entry is reported as a note and still fuzzed), each ANY-class type under classes IN, CH and "
-    "4660, OPT under 5 payload sizes.  Values (constructor-built from an independent model): per field exhaustive "
-    "boundaries one factor at a time from a nominal record (thorough: all 256 values of every 8-bit field, all 256 single "
-    "octets of every character-string / opaque / quoted field and of a name label, empty and maximal lengths, "
-    "0/1/mid/max-1/max of wider integers, 18 structurally extreme names incl. 255-octet and 127-label names, every "
-    "IPv4 octet position x 256, all 256 zero-run layouts of IPv6 x 3 fillings, type-bitmap single bits 1..255 and "
-    "window extremes, every SVCB parameter kind, every EDNS option class, LOC size codes 1e0..9e9, 200 altitudes), "
-    "then all field pairs over 4 extreme values each, then seeded random records (quick 25, thorough 1500 per "
-    "type).  Each value: to_wire vs reference encoder, decode, equality, byte-identical re-encode, field-by-field "
-    "comparison, decode at an offset inside a larger buffer, and — for name-bearing types — 3 origins "
-    "(example., Sub.Example.COM., root) x {absolute names with origin given, names made relative}.  Arbitrary "
-    "octets per type: every prefix of the nominal encoding, every position of it set to 00/7f/80/ff/+1, appended "
-    "and inserted octets, compression pointers into a prefix, and seeded random strings of length 0..70 "
-    "(quick 120, thorough 2000 per type, with and without origin), light mutations of the encodings of 30/400 "
-    "boundary values per type, and length-consistent crafted inputs (EDNS option TLVs for every option class, SVCB "
-    "parameter TLVs, type bitmaps, LOC header octets 0..255 and coordinate limits, APL items).  Unknown types: quick 300 / thorough 6000 "
-    "unassigned type codes plus every mnemonic-only type x 3 classes x 4 payloads.  Quick tier reduces the single-octet "
-    "and 8-bit enumerations to 34 / 50 representatives (thorough: all 256) and runs in two passes (boundaries of "
-    "every type first, pairs and seeded inputs second) so that a loaded machine shortens only the seeded part.  No cryptography is needed by this property."
+    "without a model entry is noted and still fuzzed); class-ANY types also under classes CH and 4660 and OPT under "
+    "5 payload sizes on every 16th value.  Values are built through the constructors from an independent model and "
+    "enumerated one factor at a time from a nominal record: every 8-bit field (thorough: all 256 values; quick: 50 "
+    "boundary representatives), every character-string / opaque / quoted field and a name label with each single "
+    "octet (thorough: all 256; quick: 34 representatives) plus empty, 1, 255/256 and 1000..20000-octet lengths, "
+    "0/1/mid/max-1/max of 16/32/48-bit integers, 18 structurally extreme names (root, 63-octet label, 255-octet "
+    "name, 127 labels, dots / quotes / NUL / high octets in labels), IPv4 each octet position (thorough x 256), IPv6 "
+    "all 256 zero-run layouts (thorough x 3 fillings), type bitmaps with each single bit and window extremes, every "
+    "SVCB parameter kind, every EDNS option class, LOC size codes 1e0..9e9 and 200 altitudes (thorough 22 000); then "
+    "all field pairs over 4 extreme values each and seeded random records (quick 25, thorough 1500 per type).  Each "
+    "value: to_wire against the RFC reference encoder, decode, equality, byte-identical re-encoding, field-by-field "
+    "comparison, decode at an offset inside a larger buffer (every 4th), and for name-bearing types 3 origins "
+    "(example., Sub.Example.COM., root) x {absolute names with origin given, decode with origin, names made "
+    "relative}.  Arbitrary octets per type (every 4th also with an origin): every prefix of the nominal encoding, "
+    "each position (quick: first/last 20) set to 00/3f/40/7f/80/c0/ff/+1/-1, deleted and inserted octets, appended "
+    "octets, compression pointers into a prefix buffer, light mutations of the encodings of 30 (thorough 400) "
+    "boundary values, length-consistent crafted inputs (EDNS option TLVs for every option class, SVCB parameter "
+    "TLVs, type bitmaps, LOC header octets 0..255 and coordinate limits, APL items), and seeded random strings of "
+    "0..70 octets (quick 120, thorough 2000).  Unknown types: every mnemonic-only type plus quick 200 / thorough "
+    "6000 unassigned codes x 3 classes x up to 4 payloads.  The quick tier runs in two passes (boundaries and "
+    "structured decode inputs of every type first, pairs and seeded inputs second) so that a loaded machine shortens "
+    "only the seeded part.  No private key is needed by this property (`cryptography` is not installed)."
 )
 
 FORMERR = dns.exception.FormError
